@@ -6,7 +6,7 @@
    (record [leaves]); everything else is proved. *)
 From OxiVerif Require Import Base.Common Spec.Adam7 Spec.Sem Model.Types Model.Options Model.ScanLines Model.Interlace
   Model.BitDepth Model.Color Model.Palette Model.Reductions
-  Proofs.Bridge Proofs.PixelProofs Proofs.ImageLift Proofs.LiftReductions Proofs.LiftColor Proofs.LiftPalette Proofs.LiftLines Proofs.LiftBits Proofs.LiftInterlace Proofs.ReductionInv.
+  Proofs.Bridge Proofs.PixelProofs Proofs.ImageLift Proofs.LiftReductions Proofs.LiftColor Proofs.LiftPalette Proofs.LiftLines Proofs.LiftBits Proofs.LiftInterlace Proofs.LiftDeinterlace Proofs.ReductionInv.
 
 (* the invariant: well-formed and means [pic] *)
 Definition means (pic : picture) (i : image) : Prop := wf i /\ sem i = Some pic.
@@ -49,7 +49,6 @@ Qed.
 
 (* ---------------------------------------------------------------- what is still assumed *)
 Record leaves : Prop := {
-  leaf_deinterlace : forall i r pic, means pic i -> deinterlace_image i = Ok r -> means pic r;
   leaf_battiato : forall i r pic, means pic i -> sorted_palette_battiato i = Ok (Some r) -> means pic r;
   leaf_mzeng : forall i r pic, means pic i -> sorted_palette_mzeng i = Ok (Some r) -> means pic r
 }.
@@ -63,7 +62,8 @@ Proof.
     assert (Hil : interlaced (hdr i) = false) by (destruct (interlaced (hdr i)); [discriminate|reflexivity]).
     destruct (interlace_image_sem i x pic Hwf Hil Ei Hsem). split; auto.
   - destruct (deinterlace_image i) as [x|?|?] eqn:Ei; cbn [bind] in H; try discriminate. injection H as <-.
-    eapply leaf_deinterlace; eauto. split; auto.
+    assert (Hil : interlaced (hdr i) = true) by (destruct (interlaced (hdr i)); [reflexivity|discriminate]).
+    destruct (deinterlace_image_sem i x pic Hwf Hil Ei Hsem). split; auto.
 Qed.
 
 Definition cand_means (pic : picture) (ev : rd_event) : Prop :=
